@@ -43,6 +43,8 @@ def run(ctx, tier):
                  ("Q10", "the sort comparator's UTF-8 -> UTF-16 decoder uses the constants of the two encodings (lead-byte ranges, "
                          "payload masks, shifts, 0x10000, 0xD800, 0xDC00, 0x3FF)"),
                  ("Q11", "the three iterators hand out name, value and pair respectively, and stop exactly at the end of the list"),
+                 ("Q12", "effect of each operation on the pair list: reset discards the old list on every path and then only appends; "
+                         "append appends on every path and does nothing else; remove only erases; sort only reorders; the parser only appends"),
                  ("Q5", "form-urlencoded decoder: a byte is copied verbatim only after it was tested not to be '+', and ' ' is written only for '+'")):
         ctx.rule(r, t)
     cfgs = C.configs_for(tier, thorough=["release", "devchecks", "amalgamated", "nopattern"])
@@ -103,6 +105,157 @@ def check_decoder_copies(ctx, fx, rule="Q5"):
                           "that it is not '+': a '+' reaching this statement stays a '+' instead of becoming a space",
                           where=where)
     ctx.floor(rule, n, 2, "single-byte stores of the decoder")
+
+
+# ---------------------------------------------------------------------------------------------------------------------------
+# Q12: effect of each list operation on `params`, as the Standard's list model states it
+#   reset(s)  : "set this's list to the result of parsing s"  -> the old list is discarded on EVERY path, then pairs are appended
+#   append    : "append (name, value) to this's list"          -> one append on every path, nothing removed
+#   remove    : removes pairs, never adds or reorders
+#   sort      : reorders only
+_EFFECT_OF = {"clear": "discard", "emplace_back": "append", "push_back": "append", "insert": "append", "emplace": "append",
+              "erase": "erase", "pop_back": "erase", "resize": "erase",
+              "operator=": "discard", "assign": "discard", "swap": "discard",
+              "reserve": None, "shrink_to_fit": None}
+_FREE_EFFECT = {"erase_if": "erase", "remove_if": None, "remove": None, "stable_sort": "reorder", "sort": "reorder",
+                "find_if": None, "find": None, "next": None, "count": None, "count_if": None, "any_of": None, "all_of": None,
+                "none_of": None, "distance": None, "move": None, "forward": None}
+
+
+def _is_params(e):
+    e = X.strip(e)
+    return isinstance(e, dict) and e.get("k") == "member" and e.get("field") == "params" and \
+        isinstance(e.get("base"), dict) and X.strip(e["base"]).get("k") == "this"
+
+
+def _stmt_effects(fx, owner, st, depth, seen):
+    """effects on this->params of one statement: list of effect names; follows calls to members of url_search_params and to
+    lambdas defined in `owner` (the closure captures *this)."""
+    out = []
+    for n in X.stmt_nodes(st):
+        k = n.get("k")
+        if k == "call":
+            recv = n.get("recv")
+            if recv is not None and _is_params(recv) and not n.get("const_method"):
+                eff = _EFFECT_OF.get(n.get("name"), "other:" + str(n.get("name")))
+                if eff:
+                    out.append(eff)
+                continue
+            q = n.get("qname") or ""
+            nm = n.get("name")
+            mfn = re.match(r"std::ranges::__(\w+)_fn$", n.get("cls") or "")
+            if nm == "operator()" and mfn:
+                nm = mfn.group(1)                                          # std::ranges::stable_sort(params, cmp): a function object
+            if q.startswith("std::") and (not n.get("method") or mfn):
+                if any(_is_params(a) for a in n.get("args", [])):         # std::erase_if(params, pred)
+                    eff = _FREE_EFFECT.get(nm, "other:" + str(nm))
+                    if eff:
+                        out.append(eff)
+                elif any(isinstance(a, dict) and X.strip(a).get("k") == "call" and X.strip(a).get("name") in ("begin", "end")
+                         and X.strip(a).get("recv") is not None and _is_params(X.strip(a)["recv"]) for a in n.get("args", [])):
+                    eff = _FREE_EFFECT.get(nm, None)               # std::stable_sort(params.begin(), params.end(), ..)
+                    if eff:
+                        out.append(eff)
+                continue
+            if q.startswith("ada::url_search_params::") and n.get("method") and not n.get("const_method") and depth > 0 \
+                    and X.strip(n.get("recv") or {}).get("k") == "this":
+                for g in fx.fns(q, must=False):
+                    if g["key"] in seen:
+                        continue
+                    out += ["via:" + g["name"] + ":" + e for e in _fn_effects(fx, g, depth - 1, seen | {g["key"]})["all"]]
+        elif k == "assign" and _is_params(n.get("lhs")):
+            out.append("discard")
+        elif k == "assign" and isinstance(X.strip(n.get("lhs")), dict) and X.strip(n["lhs"]).get("k") == "un" \
+                and X.strip(n["lhs"]).get("op") == "*" and X.strip(X.strip(n["lhs"])["e"]).get("k") == "this":
+            out.append("discard")
+    return out
+
+
+def _strip_via(e):
+    while e.startswith("via:"):
+        e = e.split(":", 2)[2]
+    return e
+
+
+def _fn_effects(fx, f, depth=2, seen=frozenset()):
+    """{'all': effects anywhere in f (and its local lambdas), 'by_block': {block id: [effects]}}"""
+    byb = {}
+    for b in f["blocks"]:
+        effs = []
+        for st in b["stmts"]:
+            effs += _stmt_effects(fx, f, st, depth, seen)
+        byb[b["id"]] = effs
+    allv = [e for v in byb.values() for e in v]
+    for g in fx.functions:
+        if g.get("lambda") and (" in " + f["qname"]) in g["key"] and g["key"] not in seen:
+            for b in g["blocks"]:
+                for st in b["stmts"]:
+                    allv += _stmt_effects(fx, g, st, depth, seen | {g["key"]})
+    return {"all": allv, "by_block": byb}
+
+
+def _must_pass(fx, f, effect, depth=2):
+    """every entry->exit path of f passes a block with `effect` on params (directly, or through a member call all of whose
+    paths do)."""
+    cut = set()
+    for b in f["blocks"]:
+        for st in b["stmts"]:
+            for n in X.stmt_nodes(st):
+                if n.get("k") == "call" and (n.get("qname") or "").startswith("ada::url_search_params::") and n.get("method") \
+                        and depth > 0 and X.strip(n.get("recv") or {}).get("k") == "this":
+                    gs = fx.fns(n["qname"], must=False)
+                    if gs and all(_must_pass(fx, g, effect, depth - 1) for g in gs if g["key"] != f["key"]):
+                        cut.add(b["id"])
+            if any(_strip_via(e) == effect and not e.startswith("via:") for e in _stmt_effects(fx, f, st, 0, frozenset())):
+                cut.add(b["id"])
+    blk = {b["id"]: b for b in f["blocks"]}
+    seen, st = set(), [f["entry"]]
+    while st:
+        x = st.pop()
+        if x in seen or x in cut:
+            continue
+        seen.add(x)
+        if x == f["exit"]:
+            return False
+        for e in blk[x]["succ"]:
+            if not e.get("pruned"):
+                st.append(e["to"])
+    return True
+
+
+def check_operation_effects(ctx, fx):
+    spec = [
+        # qname, effects allowed, effect that every path must perform
+        ("ada::url_search_params::reset", {"discard", "append"}, "discard",
+         "reset(s) sets the list to the result of parsing s: the previous pairs are discarded whatever s is (also \"\" and \"?\")"),
+        ("ada::url_search_params::append", {"append"}, "append", "append adds exactly the pair given, on every path"),
+        ("ada::url_search_params::remove", {"erase"}, None, "remove only removes pairs"),
+        ("ada::url_search_params::sort", {"reorder"}, None, "sort only reorders pairs"),
+        ("ada::url_search_params::initialize", {"append"}, None,
+         "the urlencoded parser only appends pairs (it also serves the constructor, where the list starts empty)"),
+    ]
+    n = 0
+    for q, allowed, must, why in spec:
+        fs = fx.fns(q, must=False)
+        if not fs:
+            ctx.broken("Q12: %s not found" % q)
+        for f in fs:
+            eff = _fn_effects(fx, f)
+            got = set(_strip_via(e) for e in eff["all"])
+            n += 1
+            ctx.check("Q12", "%s: effects on the pair list" % f["key"].replace("ada::url_search_params::", ""), got <= allowed and bool(got),
+                      "{%s}" % ", ".join(sorted(got)),
+                      "%s performs {%s} on `params` (allowed: {%s}): %s" % (f["name"], ", ".join(sorted(got)) or "nothing",
+                                                                            ", ".join(sorted(allowed)), why),
+                      where=f["loc"].replace("/repo/", ""))
+            if must:
+                n += 1
+                ctx.check("Q12", "%s: %s on every path" % (f["key"].replace("ada::url_search_params::", ""), must),
+                          _must_pass(fx, f, must), "every path from entry to exit",
+                          "there is a path through %s on which the list is not %s: %s" %
+                          (f["name"], {"discard": "discarded", "append": "appended to"}[must], why),
+                          where=f["loc"].replace("/repo/", ""))
+    ctx.floor("Q12", n, 8, "operation effect obligations")
 
 
 def check_set(ctx, fx):
@@ -436,6 +589,7 @@ def check(ctx, fx):
     check_pair_roles(ctx, fx)
     check_compaction_aliasing(ctx, fx)
     check_set(ctx, fx)
+    check_operation_effects(ctx, fx)
     # ---- Q1 ----
     f = fx.fn1("ada::url_search_params::sort")
     sorts = [n for n, s, b in C.all_nodes(f) if n.get("k") == "call" and "sort" in (n.get("qname") or n.get("callee") or "")]
